@@ -30,9 +30,10 @@ structure Main (s : St) : Prop where
   ended : s.outSt = .endedOk → EndOk s
   byp : s.canStartBypass = true → s.consumed = 0 ∧ s.answer = .none ∧ s.out = [] ∧ s.head ≠ .virginClone
   sendV : s.sending = .virgin → s.head = .virginClone ∨ (s.head = .adapted ∧ s.uob.isSome = true)
+  taken_le : s.outTaken ≤ s.out.length
 
 structure Aux (s : St) : Prop where
-  body : s.parsing = .body → s.head = .adapted ∧ s.outSt ≠ .noPipe
+  body : s.parsing = .body → s.head = .adapted ∧ s.outSt ≠ .noPipe ∧ s.uob = none
   cloneS : s.head = .virginClone → s.sending = .virgin ∨ s.sending = .done
   httpH : s.parsing = .httpHeader → s.sending = .adapted ∧ s.head ≠ .virginClone
   heads : (s.parsing = .icapHeader ∨ s.parsing = .httpHeader) → s.outSt = .noPipe
@@ -55,9 +56,10 @@ structure SameCore (s t : St) : Prop where
   lastSeen : t.lastSeen = s.lastSeen
   sending : t.sending = s.sending
   parsing : t.parsing = s.parsing
+  outTaken : t.outTaken = s.outTaken
 
 theorem Main.of_same {s t : St} (h : SameCore s t) (hb : t.canStartBypass = true → s.canStartBypass = true) (m : Main s) : Main t := by
-  obtain ⟨h1, h2, h3, h4, h5, h6, h7, h8, h9, h10, h11, h12, h13, h14, h15, h16⟩ := h
+  obtain ⟨h1, h2, h3, h4, h5, h6, h7, h8, h9, h10, h11, h12, h13, h14, h15, h16, h17⟩ := h
   constructor
   · rw [h1, h2]; exact m.put_le
   · rw [h2, h3]; exact m.cons_le
@@ -73,6 +75,7 @@ theorem Main.of_same {s t : St} (h : SameCore s t) (hb : t.canStartBypass = true
     exact ⟨by rw [h11, h12, h1]; exact e.clone, by rw [h11, h8, h9, h14]; exact e.plain, by rw [h11, h8, h12, h1]; exact e.part⟩
   · intro hc; rw [h3, h13, h7, h11]; exact m.byp (hb hc)
   · rw [h15, h11, h8]; exact m.sendV
+  · rw [h17, h7]; exact m.taken_le
 
 /-- the fields `Aux` reads -/
 structure SameAux (s t : St) : Prop where
@@ -80,25 +83,26 @@ structure SameAux (s t : St) : Prop where
   head : t.head = s.head
   outSt : t.outSt = s.outSt
   sending : t.sending = s.sending
+  uob : t.uob = s.uob
 
 theorem Aux.of_sameAux {s t : St} (h : SameAux s t) (a : Aux s) : Aux t := by
-  obtain ⟨h16, h11, h6, h15⟩ := h
+  obtain ⟨h16, h11, h6, h15, h8⟩ := h
   constructor
-  · rw [h16, h11, h6]; exact a.body
+  · rw [h16, h11, h6, h8]; exact a.body
   · rw [h11, h15]; exact a.cloneS
   · rw [h16, h15, h11]; exact a.httpH
   · rw [h16, h6]; exact a.heads
 
-theorem SameCore.aux {s t : St} (h : SameCore s t) : SameAux s t := ⟨h.parsing, h.head, h.outSt, h.sending⟩
+theorem SameCore.aux {s t : St} (h : SameCore s t) : SameAux s t := ⟨h.parsing, h.head, h.outSt, h.sending, h.uob⟩
 
 theorem Aux.of_same {s t : St} (h : SameCore s t) (a : Aux s) : Aux t := a.of_sameAux h.aux
 
-theorem SameCore.rfl' (s : St) : SameCore s s := ⟨rfl, rfl, rfl, rfl, rfl, rfl, rfl, rfl, rfl, rfl, rfl, rfl, rfl, rfl, rfl, rfl⟩
+theorem SameCore.rfl' (s : St) : SameCore s s := ⟨rfl, rfl, rfl, rfl, rfl, rfl, rfl, rfl, rfl, rfl, rfl, rfl, rfl, rfl, rfl, rfl, rfl⟩
 
 theorem SameCore.trans {s t u : St} (a : SameCore s t) (b : SameCore t u) : SameCore s u :=
   ⟨b.v.trans a.v, b.put.trans a.put, b.consumed.trans a.consumed, b.buf.trans a.buf, b.prodEnded.trans a.prodEnded, b.outSt.trans a.outSt,
    b.out.trans a.out, b.uob.trans a.uob, b.pending.trans a.pending, b.recv.trans a.recv, b.head.trans a.head, b.start.trans a.start,
-   b.answer.trans a.answer, b.lastSeen.trans a.lastSeen, b.sending.trans a.sending, b.parsing.trans a.parsing⟩
+   b.answer.trans a.answer, b.lastSeen.trans a.lastSeen, b.sending.trans a.sending, b.parsing.trans a.parsing, b.outTaken.trans a.outTaken⟩
 
 /-- `f` keeps `Main` at every exit and `Aux` at its non-throwing exits -/
 def Keeps (f : Op) : Prop := ∀ s, Main s → Aux s → Main (f s) ∧ ((f s).thrown = false → Aux (f s))
@@ -109,7 +113,7 @@ theorem keeps_seq {f g : Op} (hf : Keeps f) (hg : Keeps g) : Keeps (f ;; g) := b
   show Main (seq f g s) ∧ _
   unfold seq
   by_cases ht : (f s).thrown = true
-  · simp only [ht, if_true]; exact ⟨h1.1, fun h => absurd ht (by simp [h])⟩
+  · simp only [ht, if_true]; exact ⟨h1.1, fun h => by cases h⟩
   · have ht' : (f s).thrown = false := by simpa using ht
     simp only [ht', Bool.false_eq_true, if_false]
     exact hg _ h1.1 (h1.2 ht')
@@ -129,7 +133,7 @@ theorem keeps_whenOp {c : St → Bool} {t : Op} (ht : Keeps t) : Keeps (whenOp c
 theorem keeps_of_same {f : Op} (h : ∀ s, SameCore s (f s)) (hb : ∀ s, (f s).canStartBypass = true → s.canStartBypass = true) : Keeps f :=
   fun s m a => ⟨m.of_same (h s) (hb s), fun _ => a.of_same (h s)⟩
 
-theorem same_setThrown (s : St) : SameCore s { s with thrown := true } := ⟨rfl, rfl, rfl, rfl, rfl, rfl, rfl, rfl, rfl, rfl, rfl, rfl, rfl, rfl, rfl, rfl⟩
+theorem same_setThrown (s : St) : SameCore s { s with thrown := true } := ⟨rfl, rfl, rfl, rfl, rfl, rfl, rfl, rfl, rfl, rfl, rfl, rfl, rfl, rfl, rfl, rfl, rfl⟩
 
 theorem keeps_throwNow : Keeps throwNow := keeps_of_same same_setThrown (fun _ h => h)
 
@@ -139,7 +143,7 @@ theorem keeps_checkConsuming : Keeps checkConsuming := by
   apply keeps_of_same
   · intro s; unfold checkConsuming; split
     · exact SameCore.rfl' s
-    · exact ⟨rfl, rfl, rfl, rfl, rfl, rfl, rfl, rfl, rfl, rfl, rfl, rfl, rfl, rfl, rfl, rfl⟩
+    · exact ⟨rfl, rfl, rfl, rfl, rfl, rfl, rfl, rfl, rfl, rfl, rfl, rfl, rfl, rfl, rfl, rfl, rfl⟩
   · intro s; unfold checkConsuming; split <;> exact fun h => h
 
 end SquidModel.Icap
